@@ -37,7 +37,7 @@ let kind_of (s : Stdlib.String.t) : opk =
   match String.split_on_char '.' s with
   | ["set"] -> KSet | ["sf"] -> KSetScaling | ["crop"] -> KSetCrop | ["icc"] -> KSetICC
   | ["c"; n] -> KCompress (bits_of n) | ["cy"] -> KCompressYUV | ["ey"] -> KEncodeYUV
-  | ["h"; f] -> KHeader (b f.[0])
+  | ["h"; f] -> KHeader (b f.[0], b f.[1])
   | ["d"; n; f] -> KDecompress (bits_of n, b f.[0], b f.[1], b f.[2])
   | ["dy"; f] -> KDecompressYUV (b f.[0])
   | ["uy"; f] -> KDecodeYUV (b f.[0])
